@@ -51,7 +51,15 @@ def run_rm(ctx, p):
             pts.extend(lo + f * (hi - lo) for f in p["fr"])
     x = np.array(sorted(pts))
     s1 = RC.make_solver(ctx, which, st, xd0, a, b)
-    s2 = RC.make_solver(ctx, which, st, xd0, xd0 + (a - xd0) * q, xd0 + (b - xd0) * q)
+    # the window (xmin, xmax) is not part of the similarity map: the second solver's window is not the image of the first
+    # one's (ideal-gas solver: an unrelated window that contains the points; general solver: the image, so that its grid
+    # resolves the waves equally, with different margins on the two sides)
+    a2, b2 = xd0 + (a - xd0) * q, xd0 + (b - xd0) * q
+    if gen:
+        a2, b2 = a2 - 0.03 * span * q, b2 + 0.11 * span * q
+    else:
+        a2, b2 = min(a, a2) - 0.3 * span * max(q, 1.0), max(b, b2) + 0.9 * span * max(q, 1.0)
+    s2 = RC.make_solver(ctx, which, st, xd0, a2, b2)
     A = ctx.call(s1, x, t)
     B = ctx.call(s2, xd0 + (x - xd0) * q, t * q)
     cs = math.sqrt(st["gl"] * st["pl"] / st["rl"]) + math.sqrt(st["gr"] * st["pr"] / st["rr"])
